@@ -131,6 +131,29 @@ fn eval_cycle(ctx: &mut Ctx) {
             _ => returned += 1,
           }
         }
+        match v["aftermath"]["outcome"].as_str() {
+          Some("returned") if v["aftermath"]["latest"].as_bool() == Some(true) => ctx.res.count("cycle/aftermath/reregistered_key_resolved_on_the_same_thread", 1),
+          Some("returned") => ctx.report(
+            finding(comp, "stale-registration-after-caught-panic", &mode, format!("after the cycle panic was caught, the entry key was re-registered, but resolving it gave the old registration: {}", v["aftermath"]), json!({})),
+            program.clone(),
+          ),
+          Some("none") => ctx.report(
+            finding(comp, "registered-key-resolves-to-none", "after-caught-panic", "after the cycle panic was caught, the re-registered entry key resolved to None".into(), json!({})),
+            program.clone(),
+          ),
+          Some("panic") => {
+            let loc = v["aftermath"]["location"].as_str().unwrap_or("");
+            if is_lib_loc(loc) {
+              ctx.report(
+                finding(comp, "reregistered-key-unresolvable", "after-caught-panic", format!("after the cycle panic was caught, the entry key was re-registered with a dependency-free factory; resolving it on the same thread panicked: {} @ {}", v["aftermath"]["message"], loc), json!({})),
+                program.clone(),
+              );
+            } else {
+              ctx.res.inconclusive(&format!("cycle aftermath: harness panic {}", v["aftermath"]));
+            }
+          }
+          _ => {}
+        }
         ctx.res.count("cycle/outcomes/panic_circular_dependency", circular);
         ctx.res.count("cycle/outcomes/returned_normally", returned);
         if let Some(p) = other_panic {
@@ -179,6 +202,15 @@ fn eval_cycle(ctx: &mut Ctx) {
 // ------------------------------------------------------------------------------------------
 // child side
 
+/// Outcome of "re-register the entry key with a leaf factory and resolve it again" on the thread that caught the panic.
+fn describe_aftermath(r: Result<Option<u64>, (String, String)>, g2: u64) -> Value {
+  match r {
+    Ok(Some(g)) => json!({"outcome": "returned", "latest": g == g2, "gen": g, "expected_gen": g2}),
+    Ok(None) => json!({"outcome": "none"}),
+    Err((m, l)) => json!({"outcome": "panic", "message": m, "location": l}),
+  }
+}
+
 fn child_main(args: &Args) {
   let spec = CycleSpec::from_json(&serde_json::from_str(args.get("spec").expect("--spec")).expect("spec json"));
   let total = spec.lead + spec.len;
@@ -204,6 +236,7 @@ fn child_main(args: &Args) {
     }
   };
   let mut outcomes: Vec<Value> = Vec::new();
+  let mut aftermath: Option<Value> = None;
   let describe = |r: Result<bool, (String, String)>| match r {
     Ok(some) => json!({"outcome": "returned", "some": some}),
     Err((m, l)) => json!({"outcome": "panic", "message": m, "location": l}),
@@ -228,7 +261,19 @@ fn child_main(args: &Args) {
     }
     let (slot, name) = spec.key(0);
     let r = guarded(|| lresolve(&cont.borrow(), slot, name.as_deref()).is_some());
+    let panicked = r.is_err();
     outcomes.push(describe(r));
+    if panicked {
+      // aftermath, same thread: the caught panic must not leave the key unusable - the latest registration wins
+      let g2 = next_gen();
+      let kind = if spec.nodes[0].2 { Kind::Transient } else { Kind::Singleton };
+      let leaf: LocalBody = Rc::new(Vec::new);
+      let r2 = guarded(|| {
+        lregister(&mut cont.borrow_mut(), slot, name.as_deref(), kind, 0, g2, leaf);
+        lresolve(&cont.borrow(), slot, name.as_deref()).map(|o| o.ident.gen)
+      });
+      aftermath = Some(describe_aftermath(r2, g2));
+    }
   } else {
     let inst = Arc::new(Container::new());
     let handle = if spec.cont == "global" { ContHandle::Global } else { ContHandle::Inst(inst.clone()) };
@@ -262,19 +307,38 @@ fn child_main(args: &Args) {
       let (slot, name) = spec.key(e);
       let (h, b) = (handle.clone_h(), barrier.clone());
       // generous stack: a *detected* cycle of 60 nodes needs 60 nested factory frames
+      let single = entries.len() == 1;
+      let kind0 = if spec.nodes[e].2 { Kind::Transient } else { Kind::Singleton };
       hs.push(std::thread::Builder::new().stack_size(8 << 20).spawn(move || {
         b.wait();
-        guarded(|| resolve(h.get(), slot, name.as_deref()).is_some())
+        let r = guarded(|| resolve(h.get(), slot, name.as_deref()).is_some());
+        let mut after = None;
+        if single && r.is_err() {
+          // aftermath, same thread (see the local branch)
+          let g2 = next_gen();
+          let leaf: FactoryBody = Arc::new(Vec::new);
+          let r2 = guarded(|| {
+            register(h.get(), slot, name.as_deref(), kind0, 0, g2, leaf);
+            resolve(h.get(), slot, name.as_deref()).map(|o| o.ident.gen)
+          });
+          after = Some(describe_aftermath(r2, g2));
+        }
+        (r, after)
       }).unwrap());
     }
     for h in hs {
       match h.join() {
-        Ok(r) => outcomes.push(describe(r)),
+        Ok((r, after)) => {
+          outcomes.push(describe(r));
+          if after.is_some() {
+            aftermath = after;
+          }
+        }
         Err(_) => outcomes.push(json!({"outcome": "panic", "message": "thread died outside catch_unwind", "location": "vh_ioc"})),
       }
     }
   }
-  println!("RESULT {}", json!({"threads": outcomes}));
+  println!("RESULT {}", json!({"threads": outcomes, "aftermath": aftermath}));
   // Leaked Arc cycles (factories <-> instances) are irrelevant: the process ends here.
   std::process::exit(0);
 }
